@@ -59,8 +59,8 @@ P = {
         text="Decides: every defaulted CLI flag copied into language options is wrapped in DefaultValue; file configuration is merged before builder overrides; deep_update never stores a mapping reachable from the source into the target (no shallow copy); _sections is written only by LanguageConfig; each builder owns a fresh loader/config. Merge results for all nested maps are declined.",
         note="Trusted: CPython ast.", ref="4/C13"),
     "C14": dict(
-        tech="clang JSON AST rules over the C and C++ support headers expanded by the repository's generator at each point of the option lattice the templates branch on (endianness x asserts x omit-float; quick: 3 points, thorough: all 12, C++ parsed as c++14 and c++17): dominance of bound checks over destination stores, saturated read lengths, capacity/width agreement, non-wrapping tail arithmetic, masked read-modify-write stores in the raw copy, byte-table order, width-family and C/C++ sibling agreement",
-        text="Decides for the C and C++ support headers: every store into a caller's buffer by a set primitive is dominated by a size-vs-(offset+length) comparison that returns the buffer-too-small error and covers the stored extent (wrappers pass buffer/size/offset through unchanged); every read uses a length saturated against the primitive's own size/offset (or copyTo's clamp) and lands in a zero-initialised local large enough for it; the saturation constant, local capacity, return type and name agree on W, getI<W> delegates to getU<W>, shifted literals are wide enough; remaining-bits subtractions cannot wrap; partial-byte stores in the raw copy are masked read-modify-writes and whole-byte moves cover floor(len/8) bytes; endianness-neutral byte tables follow wire order; bitspan::setZeros clears ceil((offset%8+len)/8) bytes and preserves the bits below the offset; the four getI widths are one routine up to W; C and C++ float16 pack/unpack are the same computation. Bit-exact results for all offsets/lengths/values and float16 rounding quality are declined (numerical; exhaustive enumeration is a dynamic technique); the Python support module is not claimed.",
+        tech="clang JSON AST rules over the C and C++ support headers expanded by the repository's generator at each point of the option lattice the templates branch on (endianness x asserts x omit-float; quick: 3 points, thorough: all 12, C++ parsed as c++14 and c++17): dominance of bound checks over destination stores, saturated read lengths, capacity/width agreement, non-wrapping tail arithmetic, masked read-modify-write stores in the raw copy, byte-table order, width-family and C/C++ sibling agreement; Python support: linear-form cursor-advance evaluation and table/shape rules over the rendered module's ast",
+        text="Decides for the C and C++ support headers: every store into a caller's buffer by a set primitive is dominated by a size-vs-(offset+length) comparison that returns the buffer-too-small error and covers the stored extent (wrappers pass buffer/size/offset through unchanged); every read uses a length saturated against the primitive's own size/offset (or copyTo's clamp) and lands in a zero-initialised local large enough for it; the saturation constant, local capacity, return type and name agree on W, getI<W> delegates to getU<W>, shifted literals are wide enough; remaining-bits subtractions cannot wrap; partial-byte stores in the raw copy are masked read-modify-writes and whole-byte moves cover floor(len/8) bytes; endianness-neutral byte tables follow wire order; bitspan::setZeros clears ceil((offset%8+len)/8) bytes and preserves the bits below the offset; the four getI widths are one routine up to W; C and C++ float16 pack/unpack are the same computation. For the Python support module (rendered statically, parsed with ast): every add_*/fetch_* method moves the bit cursor by exactly the bits it addresses (linear-form evaluation of its effect on _bit_offset through loops and delegated calls), u<W>/i<W>/f<W> width tables, complementary shift pairs and 8-bit mask of the unaligned byte copy and its reader, value / most-significant-byte masks, zero extension of out-of-range reads and alignment assertions before direct indexing. Bit-exact results for all offsets/lengths/values and float16 rounding quality are declined (numerical; exhaustive enumeration is a dynamic technique).",
         note="Trusted: clang 14 parser/JSON dump; expansion of the support template by the repository's own generator is a build step (no DSDL type, nothing compiled to an executable or run).", ref="4/C14"),
     "C15": dict(
         tech="driver model (carriers, terminator recogniser, scanned text) extracted from the line splitter, regex-language computation over the terminator pattern's AST, per-execution-path contracts of the line post-processors with counter replay",
